@@ -146,9 +146,10 @@ def run_cell(res, oname, slow, method, con, situation):
         site.add_resource(["getonly"], make_resource(lambda: Message(payload=b"g"), 0.0, only=("get",)))
         node = w.add_context("srv", *SRV, site=None if situation == "nosite" else site)
         w.add_peer(AutoAck("p1", *P1))
-        path = {"known": b"known", "unknown": b"nowhere", "unimplemented": b"getonly", "nosite": b"known"}[situation]
+        paths = {"known": [b"known"], "unknown": [b"nowhere"], "unknown-root": [], "unknown-deep": [b"known", b"deeper"],
+                 "unknown-slash": [b"known", b""], "unimplemented": [b"getonly"], "nosite": [b"known"]}[situation]
         tok = b"\xC9\x01"
-        w.inject(P1, SRV, rc.encode((rc.CON if con else rc.NON, method, 0x3001, tok, [(11, path)], b"")))
+        w.inject(P1, SRV, rc.encode((rc.CON if con else rc.NON, method, 0x3001, tok, [(11, p) for p in paths], b"")))
         serve(w, 3.0)
         case = {"outcome": oname, "slow": slow, "method": method, "con": con, "situation": situation}
         res.evaluations += 1
@@ -234,6 +235,56 @@ def token_reuse(res, con, gap):
         w.dispose()
 
 
+def slow_pair(res, first, second, ack_delay):
+    """Two CON requests of one peer whose handlers both outlast EMPTY_ACK_DELAY; the peer acknowledges the first separate
+    response late, so that the second one has to wait in line: each request still gets exactly one final response."""
+    global OUTCOMES
+    OUTCOMES = OUTCOMES or outcomes()
+    w = World()
+    try:
+        site = resource.Site()
+        site.add_resource(["a"], make_resource(OUTCOMES[first][0], 0.3))
+        site.add_resource(["b"], make_resource(OUTCOMES[second][0], 0.3))
+        w.add_context("srv", *SRV, site=site)
+        peer = w.add_peer(Peer("p1", *P1))       # no automatic ACKs
+        w.inject(P1, SRV, rc.encode((rc.CON, 1, 0x3401, b"\x61", [(11, b"a")], b"")))
+        w.inject(P1, SRV, rc.encode((rc.CON, 1, 0x3402, b"\x62", [(11, b"b")], b"")))
+        acked = set()
+        t_end = 8.0
+        while True:
+            for dg in list(w.pool):
+                w.pool.remove(dg)
+                m = rc.decode(dg.data, check_formats=False)
+                if m[0] == rc.CON and m[1] >= 64 and m[2] not in acked and w.loop.time() >= dg.t:
+                    acked.add(m[2])
+                    w.loop.advance(ack_delay)
+                    w.inject(P1, SRV, rc.encode((rc.ACK, 0, m[2], b"", [], b"")))
+            tn = w.loop.next_timer()
+            if tn is None or tn > t_end:
+                break
+            w.loop.fire_next_timer()
+        case = {"slow_pair": [first, second, ack_delay]}
+        res.evaluations += 1
+        res.traces += 1
+        for tok, o in ((b"\x61", first), (b"\x62", second)):
+            fin = finals(w, P1, tok)
+            exp = OUTCOMES[o][1]
+            want = 160 if exp == "bare500" else 69 if exp in ("default",) or exp[0] == "default" else exp[0]
+            if len(fin) != 1 or fin[0][1] != want:
+                res.violate(Violation("final-response-under-backlog", {"count": 1, "code": rc.code_str(want)},
+                                      [(rc.code_str(m[1]), m[5]) for m in fin], "tokenmanager.py:process_request", case, trace=w.trace[-20:],
+                                      key="pair:" + ("none" if not fin else "many" if len(fin) > 1 else "wrong")))
+        for msg, e in w.loop_exceptions():
+            res.violate(Violation("loop-exception", "none", core.exc_desc(e) if e else msg, core.site_of(e) if e else "loop", case,
+                                  key=type(e).__name__ if e else msg[:40]))
+        res.states.add(core.digest(("pair", first, second, ack_delay)))
+        res.transitions += 2
+        res.outcomes.add(core.digest(("pair", first, second)))
+        res.signatures.add(core.digest(("pair", first, second, ack_delay)))
+    finally:
+        w.dispose()
+
+
 def isolation_run(x_outcome, x_when, x_peer, x_slow):
     """Neighbours: slow GET at t=0, fast GET at t=0.25, later GET at t=2.0; X (POST /x) at x_when or absent."""
     global OUTCOMES
@@ -280,6 +331,10 @@ def job(arg):
         for con in (True, False):
             for gap in (0.05, 0.2, 0.45):
                 token_reuse(res, con, gap)
+        for first in ("ret-payload", "raise-RuntimeError", "raise-Forbidden-text"):
+            for second in ("ret-payload", "raise-RuntimeError", "raise-Forbidden-text"):
+                for ack_delay in (0.0, 0.2, 2.5):
+                    slow_pair(res, first, second, ack_delay)
     else:
         base, _ = isolation_run(None, 0, P1, False)
         for (o, when, peer, slow) in items:
@@ -312,6 +367,8 @@ def run(tier, seed, jobs):
     for method in METHODS:
         for con in (True, False):
             cells.append(("ret-empty", False, method, con, "unknown"))
+            for sit in ("unknown-root", "unknown-deep", "unknown-slash"):
+                cells.append(("ret-empty", False, method, con, sit))
             cells.append(("ret-empty", False, method, con, "nosite"))
             if method != 1:
                 cells.append(("ret-empty", False, method, con, "unimplemented"))
@@ -327,6 +384,9 @@ def run(tier, seed, jobs):
 
 def replay(case, scenario, seed):
     res = Result()
+    if "slow_pair" in case:
+        slow_pair(res, *case["slow_pair"])
+        return [v for v, n in res.violations.values()]
     if "token_reuse" in case:
         token_reuse(res, *case["token_reuse"])
         return [v for v, n in res.violations.values()]
